@@ -20,8 +20,9 @@ import Exetera.Model.Basic
   * Every subscript of the kernel goes through `getE` / `pushV` / the `capI` check.
   * The two textually identical "scan for comma/quote, then copy with quotes doubled" blocks of the kernel (single
     entry case and multi entry case) share `scanFlags` / `emitBody`.
-  * `Variant.asFound` mirrors the code before the two `fix:` patches (D25: `dest_start_v` = size of the previous
-    batch; NC16a: index buffer and limit one short); `Variant.repaired` is the code with the patches applied.
+  * `Variant.asFound` mirrors the code before the three `fix:` patches (D25: `dest_start_v` = size of the previous
+    batch; NC16a: index buffer and limit one short; NC16b: value buffer not sized for the longest span);
+    `Variant.repaired` is the code with the patches applied.
 -/
 namespace Exetera.Concat
 
@@ -232,16 +233,57 @@ def batchBody (v : Variant) (sep delim : α) (spans idx : List Nat) (vals : List
 
 def batchGuard (spans : List Nat) (st : S α) : Bool := decide (st.s < spans.length - 1)
 
-/-- the batch loop; `valueCap = dest_chunksize * chunksize_mult` -/
+/-- the batch loop; `valueCap = len(dest_values)` -/
 def runBatches (v : Variant) (sep delim : α) (spans idx : List Nat) (vals : List α) (srcChunk valueCap : Nat) :
     Except Err (S α) :=
   whileE (batchGuard spans) (batchBody v sep delim spans idx vals srcChunk valueCap) spans.length {}
 
+/-- `2 * (src_index[b] - src_index[a]) + 3 * (b - a)`: every byte doubled, two quotes and a separator per entry — an
+    upper bound of the output length of the span `[a, b)`. Numpy evaluates it in int64: it is negative for an inverted
+    span, so the model uses `Int`. Fancy indexing raises IndexError for a boundary outside `src_index`. -/
+def spanBound (idx : List Nat) (p : Nat × Nat) : Except Err Int :=
+  match getE idx p.2 "src_index[span_ends]", getE idx p.1 "src_index[span_starts]" with
+  | .error e, _ => .error e
+  | .ok _, .error e => .error e
+  | .ok ib, .ok ia => .ok (2 * ((ib : Int) - (ia : Int)) + 3 * ((p.2 : Int) - (p.1 : Int)))
+
+/-- `np.max` of the span bounds, `m` being the maximum so far -/
+def longestBound (idx : List Nat) : List (Nat × Nat) → Int → Except Err Int
+  | [], m => .ok m
+  | p :: rest, m =>
+    match spanBound idx p with
+    | .error e => .error e
+    | .ok w => longestBound idx rest (if w > m then w else m)
+
+/-- `len(dest_values)`. As found: `dest_chunksize * chunksize_mult`. Repaired (NC16b): grown to twice the longest
+    span bound when that is larger (`if len(spans) > 1: longest = …; if 2 * longest > len(dest_values): …`). -/
+def valueCap (v : Variant) (spans idx : List Nat) (destChunk mult : Nat) : Except Err Nat :=
+  match v with
+  | .asFound => .ok (destChunk * mult)
+  | .repaired =>
+    match spans.zip spans.tail with
+    | [] => .ok (destChunk * mult)
+    | p :: rest =>
+      match spanBound idx p with
+      | .error e => .error e
+      | .ok w =>
+        match longestBound idx rest w with
+        | .error e => .error e
+        | .ok longest =>
+          .ok (if 2 * longest > ((destChunk * mult : Nat) : Int) then (2 * longest).toNat else destChunk * mult)
+
 /-- `Session.apply_spans_concat(spans, target, dest, src_chunksize, dest_chunksize, chunksize_mult)` on a fresh `dest`;
-    `idx`, `vals` are `target.indices[:]`, `target.values[:]` -/
+    `idx`, `vals` are `target.indices[:]`, `target.values[:]`. (`max_value_i` is `len(dest_values) // 2` in either
+    branch of the repaired sizing.) Returns the final loop state (`dest` and the number of kernel calls). -/
+def applySpansConcatS (v : Variant) (sep delim : α) (spans idx : List Nat) (vals : List α)
+    (srcChunk destChunk mult : Nat) : Except Err (S α) :=
+  match valueCap v spans idx destChunk mult with
+  | .error e => .error e
+  | .ok cap => runBatches v sep delim spans idx vals srcChunk cap
+
 def applySpansConcat (v : Variant) (sep delim : α) (spans idx : List Nat) (vals : List α)
     (srcChunk destChunk mult : Nat) : Except Err (Dest α) :=
-  match runBatches v sep delim spans idx vals srcChunk (destChunk * mult) with
+  match applySpansConcatS v sep delim spans idx vals srcChunk destChunk mult with
   | .error e => .error e
   | .ok st => .ok st.dest
 
